@@ -72,6 +72,9 @@ type Sym struct {
 	// partial success content
 	Rejected int64
 	Message  string
+	// response framing: the body length is not announced (chunked / HTTP2 / transparently
+	// inflated gzip responses reach the client with ContentLength -1)
+	NoLength bool
 }
 
 var success = &Sym{Name: "ok(tail)", Group: "success", Class: Success, Status: 200}
@@ -93,6 +96,7 @@ func HTTPAlphabet() []Sym {
 		st(200, Success, false),
 		{Name: "200-partial-rejected", Group: "partial success", Class: PartialRejected, Status: 200, Rejected: 3, Message: "c14 rejected"},
 		{Name: "200-partial-message", Group: "partial success (message only)", Class: PartialMessage, Status: 200, Message: "c14 warning"},
+		{Name: "200-partial-rejected-nolength", Group: "partial success (response without Content-Length)", Class: PartialRejected, Status: 200, Rejected: 3, Message: "c14 rejected", NoLength: true},
 		{Name: "200-partial-empty", Group: "success", Class: PartialEmpty, Status: 200, Thorough: true},
 		st(204, Success, true),
 		st(429, Retryable, false),
@@ -627,15 +631,20 @@ func (roundTripper) RoundTrip(req *http.Request) (*http.Response, error) {
 		h.Set("Retry-After", s.RetryAfter)
 	}
 	return &http.Response{
-		Status:        strconv.Itoa(s.Status) + " " + http.StatusText(s.Status),
-		StatusCode:    s.Status,
-		Proto:         "HTTP/1.1",
-		ProtoMajor:    1,
-		ProtoMinor:    1,
-		Header:        h,
-		Body:          io.NopCloser(bytes.NewReader(rb)),
-		ContentLength: int64(len(rb)),
-		Request:       req,
+		Status:     strconv.Itoa(s.Status) + " " + http.StatusText(s.Status),
+		StatusCode: s.Status,
+		Proto:      "HTTP/1.1",
+		ProtoMajor: 1,
+		ProtoMinor: 1,
+		Header:     h,
+		Body:       io.NopCloser(bytes.NewReader(rb)),
+		ContentLength: func() int64 {
+			if s.NoLength {
+				return -1
+			}
+			return int64(len(rb))
+		}(),
+		Request: req,
 	}, nil
 }
 
